@@ -67,7 +67,7 @@ def run_oracle(outcome, tier, seed):
     # hop 1: A -> B and A -> A
     reqs, plans = [], []
     for a, v, t in docs:
-        bs = fidelity.FORMATS if tier == "thorough" else rng.sample(fidelity.FORMATS, 2)
+        bs = fidelity.FORMATS if (tier == "thorough" or 20000 < len(t) < 100000) else rng.sample(fidelity.FORMATS, 2)
         base_aa = len(reqs)
         reqs.append({"id": base_aa, "to": a, "calls": [{"input": shared.hx(t), "from": a, "mode": "slice"}]})
         for b in bs:
@@ -86,8 +86,12 @@ def run_oracle(outcome, tier, seed):
         if ab[0] != "ok":
             continue      # B cannot represent the document: nothing to feed back
         out = ab[2] if ab[2] != "-" else "-"
-        for mode in ("slice", "reader"):
-            sched = corpus.random_sched(rng)
+        hops = [("slice", None), ("reader", corpus.random_sched(rng))]
+        if 40000 < len(out) < 200000:
+            # output larger than any read buffer: whole-buffer reads as well (a parser that refills a buffer asks for less
+            # than its size when a character straddles the end)
+            hops += [("reader", {"kind": "full"}), ("reader", {"kind": "fixed", "n": 16384}), ("reader", {"kind": "fixed", "n": 8192})]
+        for mode, sched in hops:
             base = len(reqs2)
             reqs2.append({"id": base, "to": b, "calls": [{"input": out, "from": b, "mode": mode, "sched": sched}]})
             reqs2.append({"id": base + 1, "to": a, "calls": [{"input": out, "from": b, "mode": mode, "sched": sched}]})
